@@ -1,6 +1,7 @@
 package c12
 
 import (
+	"time"
 	"context"
 	"errors"
 	"fmt"
@@ -42,6 +43,8 @@ type script struct {
 	final    error // nil = OK / io.EOF
 	// caller side: the recording server stream fails its k-th Send (-1: never)
 	callerFailAt int
+	// the child's header only becomes available after this long (a device that is slow to answer): real time
+	headerDelay time.Duration
 }
 
 type call struct {
@@ -90,7 +93,16 @@ type fakeClientStream struct {
 	next    int
 }
 
-func (s *fakeClientStream) Header() (metadata.MD, error) { return s.conn.script.header, nil }
+func (s *fakeClientStream) Header() (metadata.MD, error) {
+	if d := s.conn.script.headerDelay; d > 0 {
+		select {
+		case <-time.After(d):
+		case <-s.ctx.Done():
+			return nil, s.ctx.Err()
+		}
+	}
+	return s.conn.script.header, nil
+}
 func (s *fakeClientStream) Trailer() metadata.MD         { return s.conn.script.trailer }
 func (s *fakeClientStream) CloseSend() error             { return nil }
 func (s *fakeClientStream) Context() context.Context     { return s.ctx }
@@ -255,6 +267,13 @@ func exerciseMethod(t *rapid.T, e routerEntry, mi methodInfo) string {
 		if rapid.IntRange(0, 4).Draw(t, "callerFails") == 0 && nmsg > 0 {
 			sc.callerFailAt = rapid.IntRange(0, nmsg-1).Draw(t, "failAt")
 		}
+		if rapid.IntRange(0, 59).Draw(t, "lateHeader") == 37 {
+			sc.headerDelay = time.Duration(rapid.SampledFrom([]int{60, 550, 700, 1100}).Draw(t, "headerDelayMs")) * time.Millisecond
+			if len(sc.header) == 0 {
+				sc.header = metadata.Pairs("x-device", "late")
+			}
+			lib.Ev.Class("child stream whose header arrives late (60ms-1.1s)")
+		}
 	}
 	for i := 0; i < nmsg; i++ {
 		sc.messages = append(sc.messages, lib.GenMessage(t, fmt.Sprintf("resp%d", i), outType.New().Interface(), mgen))
@@ -275,7 +294,7 @@ func exerciseMethod(t *rapid.T, e routerEntry, mi methodInfo) string {
 		}
 		return conns[pair[0]]
 	}
-	desc := fmt.Sprintf("%s %s target=%q messages=%d final=%v header=%v trailer=%v callerFailAt=%d", e.Name, full, target, len(sc.messages), sc.final, sc.header, sc.trailer, sc.callerFailAt)
+	desc := fmt.Sprintf("%s %s target=%q messages=%d final=%v header=%v (available after %v) trailer=%v callerFailAt=%d", e.Name, full, target, len(sc.messages), sc.final, sc.header, sc.headerDelay, sc.trailer, sc.callerFailAt)
 
 	var gotErr error
 	var resp any
